@@ -166,7 +166,8 @@ def main(tier, seed):
     # ---- fault sets
     fault_sets = []
     for (what, pkg), key in sorted(mod_keys.items()):
-        for kind in KINDS:
+        # quick: every kind for the reflection-fact and asm-name entries, two sampled kinds for the -debugdir artifacts
+        for kind in (KINDS if tier == "thorough" or what in ("facts", "asm") else rng.sample(KINDS, 2)):
             fault_sets.append([("entry", what, pkg, kind)])
     for (what, pkg), key in sorted(std_keys.items()):
         if what == "facts":
@@ -177,7 +178,7 @@ def main(tier, seed):
     # (every package recompiled, all keys unchanged) after damaging the asm name map / the facts of a dependency
     for (what, pkg), key in sorted(mod_keys.items()):
         if what == "asm" or (what == "facts" and pkg == "leaf"):
-            for kind in (KINDS if tier == "thorough" or what == "asm" else [rng.choice(KINDS)]):
+            for kind in (KINDS if tier == "thorough" else (["nodata", "truncdata", "noindex"] if what == "asm" else [rng.choice(KINDS)])):
                 fault_sets.append([("entry", what, pkg, kind), ("rebuild-all",)])
     # the same with control-flow obfuscation on (its own warm caches, see below): recomputation of a
     # dependency's entry from a dependant's compile goes through the SSA form there
@@ -188,7 +189,7 @@ def main(tier, seed):
         for bn in ("none", "partial", "old", "cur"):
             if (st, bn) != ("cur", "cur") and (tier == "thorough" or (st, bn) in (("cur", "none"), ("cur", "partial"), ("none", "cur"), ("partial", "cur"), ("old", "old"), ("cur", "old"), ("partial", "partial"))):
                 fault_sets.append([("linker", st, bn)])
-    nsim = 6 if tier == "quick" else 80
+    nsim = 4 if tier == "quick" else 80
     for faults in sim_sets[:nsim]:
         fs = []
         for p, kind in faults:
@@ -290,7 +291,7 @@ def main(tier, seed):
                     chk.extra.setdefault("rejected_linker_traces", []).append(witness["faults"])
         rmtree(root)
 
-    parallel(experiment, list(enumerate(fault_sets)), workers=4)
+    parallel(experiment, list(enumerate(fault_sets)), workers=6)
     if chk.extra.get("rejected_traces") or chk.extra.get("rejected_linker_traces"):
         print(f"MODEL-MISMATCH: property=C07 {len(chk.extra.get('rejected_traces', []))} build traces and "
               f"{len(chk.extra.get('rejected_linker_traces', []))} linker traces of the reruns are not behaviours of the specification", flush=True)
